@@ -19,14 +19,15 @@ import unicodedata
 from collections.abc import Iterator
 from decimal import Decimal, DecimalException
 from string import ascii_letters
-from typing import cast, Optional, Union, NoReturn
+from typing import cast, Any, Optional, Union, NoReturn
 from urllib.parse import urlsplit, quote as urllib_quote
 
 import elementpath.aliases as ta
 
 from elementpath.exceptions import ElementPathValueError
 from elementpath.namespaces import XML_ID, XML_LANG, XML_NAMESPACE
-from elementpath.helpers import Patterns, is_idrefs, is_xml_codepoint, round_number
+from elementpath.helpers import Patterns, is_idrefs, is_xml_codepoint, round_number, \
+    get_double
 from elementpath.datatypes import DateTime10, DateTime, Date10, Date, \
     Float, DoubleProxy, Time, Duration, DayTimeDuration, YearMonthDuration, \
     UntypedAtomic, AnyURI, QName, NCName, Id, ArithmeticProxy, NumericProxy
@@ -444,8 +445,10 @@ def evaluate__avg(self: XPathFunction, context: ta.ContextType = None) \
                 return []
             raise self.error('FORG0006', err)
     elif all(isinstance(x, int) for x in values):
-        result = sum(cast(list[int], values)) / Decimal(len(values))
-        return int(result) if result % 1 == 0 else result
+        total = sum(cast(list[int], values))
+        if total % len(values) == 0:
+            return total // len(values)
+        return total / Decimal(len(values))
     elif all(isinstance(x, (int, Decimal)) for x in values):
         return sum(cast(list[Decimal], values)) / Decimal(len(values))
     elif all(not isinstance(x, DoubleProxy) for x in values):
@@ -457,6 +460,8 @@ def evaluate__avg(self: XPathFunction, context: ta.ContextType = None) \
             if isinstance(context, XPathSchemaContext):
                 return []
             raise self.error('FORG0006', err)
+        except OverflowError as err:
+            raise self.error('FOAR0002', err) from None
     else:
         try:
             return sum(
@@ -466,6 +471,8 @@ def evaluate__avg(self: XPathFunction, context: ta.ContextType = None) \
             if isinstance(context, XPathSchemaContext):
                 return []
             raise self.error('FORG0006', err)
+        except OverflowError as err:
+            raise self.error('FOAR0002', err) from None
 
 
 @method(function('max', nargs=(1, 2),
@@ -493,9 +500,12 @@ def evaluate__max_min_functions(self: XPathFunction, context: ta.ContextType = N
         elif any(isinstance(x, float) and math.isnan(x) for x in values):
             return float_class('NaN')
         elif all(isinstance(x, (int, float, Decimal)) for x in values):
-            return float_class(
-                aggregate_func(cast(list[NumericType], values))
-            )
+            try:
+                return float_class(
+                    aggregate_func(cast(list[NumericType], values))
+                )
+            except OverflowError as err:
+                raise self.error('FOAR0002', err) from None
         return aggregate_func(values)  # type: ignore[type-var]
 
     values: list[AtomicType] = []
@@ -576,6 +586,12 @@ def select__exists(self: XPathFunction, context: ta.ContextType = None) \
 def select__distinct_values(self: XPathFunction, context: ta.ContextType = None)\
         -> Iterator[AtomicType]:
 
+    def is_close(x: Any, y: Any) -> bool:
+        try:
+            return math.isclose(x, y, rel_tol=1E-18, abs_tol=0)
+        except OverflowError:
+            return False  # an integer out of the range of float
+
     def distinct_values(case_insensitive: bool = False) -> Iterator[AtomicType]:
         nan = False
         results: list[AtomicType] = []
@@ -588,7 +604,7 @@ def select__distinct_values(self: XPathFunction, context: ta.ContextType = None)
                     if not nan:
                         yield value
                         nan = True
-                elif all(not math.isclose(value, x, rel_tol=1E-18, abs_tol=0)
+                elif all(not is_close(value, x)
                          for x in results if isinstance(x, (int, Decimal, float))):
                     yield value
                     results.append(value)
@@ -681,7 +697,9 @@ def select__subsequence(self: XPathFunction, context: ta.ContextType = None) \
         context = self.context
 
     starting_loc = self.get_argument(context, 1, required=True, cls=NumericProxy)
-    if not math.isnan(starting_loc) and not math.isinf(starting_loc):
+    if isinstance(starting_loc, int):
+        starting_loc = get_double(starting_loc)  # infinite if out of range
+    elif not math.isnan(starting_loc) and not math.isinf(starting_loc):
         starting_loc = float(round_number(starting_loc))
 
     if len(self) == 2:
@@ -690,7 +708,9 @@ def select__subsequence(self: XPathFunction, context: ta.ContextType = None) \
                 yield result
     else:
         length = self.get_argument(context, 2, required=True, cls=NumericProxy)
-        if not math.isnan(length) and not math.isinf(length):
+        if isinstance(length, int):
+            length = get_double(length)
+        elif not math.isnan(length) and not math.isinf(length):
             length = float(round_number(length))
 
         for pos, result in enumerate(self[0].select(context), start=1):
